@@ -75,6 +75,10 @@ func record(x *harness.X, st *state, kind, idx int, id string, env interface{}, 
 	st.invs = append(st.invs, inv{kind: kind, idx: idx, id: id, canon: lib.Canon(env), failed: fail})
 	x.Obs("handler kind=%d idx=%d id=%s fail=%v", kind, idx, id, fail)
 	if fail {
+		if idx%2 == 1 {
+			// e.g. the handler's own sub-operation timed out: still a handler error
+			return fmt.Errorf("handler failure: %w", context.DeadlineExceeded)
+		}
 		return errors.New("handler failure")
 	}
 	return nil
